@@ -338,6 +338,12 @@ def refusal_family(pvl):
            ("q", Q(5, "a\xa0b c"))]),
         M([("t", "alpha\x1ebeta gamma\x1fdelta " * 6), ("u", ["one\x1ctwo three"] * 9)]),
         M([("t", "x\ue000y z \ue001 " * 12)]),
+        # strings one or another encoder has no notation for, next to accepted
+        # ones (the same refused string comes round again in a history)
+        M([("a", 1), ("note", 'say "cheese"\nplease')]),
+        M([("a", "it's"), ("note", 'say "cheese"')]),
+        M([("c", 3), ("o", col.PVLObject([("remark", [1, 'say "x"\nplease'])]))]),
+        M([("a", 'both \' and "'), ("b", "N/A")]),
     ]
 
 
